@@ -8,7 +8,7 @@
                   claimable_b (the un-claimed comments lie in the field's range) before the claim that follows an
                   unclaim_interleaving_comments, file_cover_b before the root File's own claim_interleaving_comments()
                   (what the children left unclaimed lies in the File's range). *)
-From AB Require Import Prelude Comments CommentsRange.
+From AB Require Import Prelude Comments CommentsRange CommentsRule.
 
 (* o_order: token ids in store order after the call (None: same order as before it); o_claimed: ids of the
    tokens whose claimed flag is set, in store order *)
@@ -16,7 +16,9 @@ Record obs := mkobs { o_exc : Z; o_ret : list Z; o_items : list (bool * Z); o_or
                       o_claimed : list Z; o_slot : list Z }.
 (* k_mode: 0 plain, 1 = part of the second run of auto_claim_comments, 2 = unclaim_leading/trailing that is
    followed by its claim, 3 = unclaim_interleaving_comments(cs) followed by claim_interleaving_comments(cs),
-   4 = the root File's own claim_interleaving_comments() at the end of File.auto_claim_comments() *)
+   4 = the root File's own claim_interleaving_comments() at the end of File.auto_claim_comments(),
+   5 = the same at the end of the ONE File.auto_claim_comments() run on a freshly parsed store (nothing claimed): the
+       history is then also compared with the declarative rule CommentsRule.attrib_spec, comment by comment *)
 Record step := mkstep { k_op : eop; k_obs : obs; k_mode : Z }.
 Record ccase := mkccase { c_doc : doc; c_table : table; c_hists : list (list step) }.
 
@@ -109,8 +111,28 @@ Fixpoint hyp_steps (st : doc * table) (l : list step) : bool :=
     && (if k_mode k =? 1 then match k_op k with EC o => auto_ok st o | _ => false end else true)
     && (if k_mode k =? 2 then restore_hyp st (k_op k) r else true)
     && (if k_mode k =? 3 then restore_inter_hyp st (k_op k) r else true)
-    && (if k_mode k =? 4 then file_hyp st (k_op k) else true)
+    && (if (k_mode k =? 4) || (k_mode k =? 5) then file_hyp st (k_op k) else true)
     && hyp_steps (snd (estep_obs st (k_op k))) r
+  end.
+
+(* the rule over the whole layout: every block comment of the parsed store is owned, after the run, by the slot
+   attrib_spec names (or the order inversion CommentsRule.priority_refuted describes took place); the table is the
+   model's, which check_case compares with the implementation's slot after every call *)
+Fixpoint cops_of (l : list step) : option (list cop) :=
+  match l with
+  | [] => Some []
+  | k :: r => match k_op k, cops_of r with EC o, Some ops => Some (o :: ops) | _, _ => None end
+  end.
+Definition attrib_hist (st0 : doc * table) (l : list step) : bool :=
+  match rev l with
+  | k :: _ =>
+    if k_mode k =? 5 then
+      match cops_of l with
+      | Some ops => attrib_spec_b (fst st0) ops (snd (fold_left cstep ops st0))
+      | None => false
+      end
+    else true
+  | [] => true
   end.
 
 (* placeholders are empty (hypothesis of C04_text_unchanged); Inv (C14) *)
@@ -119,5 +141,6 @@ Definition doc_ok (d : doc) : bool := forallb (fun t => negb (is_ph t) || text_e
 Definition check_case (c : ccase) : bool :=
   forallb (run_steps (c_doc c, c_table c)) (c_hists c).
 Definition hyp_case (c : ccase) : bool :=
-  doc_ok (c_doc c) && inv_b (c_doc c, c_table c) && forallb (hyp_steps (c_doc c, c_table c)) (c_hists c).
+  doc_ok (c_doc c) && inv_b (c_doc c, c_table c) && forallb (hyp_steps (c_doc c, c_table c)) (c_hists c)
+  && forallb (attrib_hist (c_doc c, c_table c)) (c_hists c).
 Definition check_all (c : ccase) : bool := check_case c && hyp_case c.
